@@ -230,7 +230,34 @@ func checkC09(c *Ctx) {
 		sub := filepath.Join(dir, sanitize(cs.Name))
 		must(os.MkdirAll(sub, 0o755))
 		defer os.RemoveAll(sub)
-		cache, _ := cdi.NewCache(cdi.WithSpecDirs(sub), cdi.WithAutoRefresh(false))
+		var cache *cdi.Cache
+		var ac *autoCache
+		switch k := r.Intn(20); {
+		case k < 3:
+			// an auto-refresh cache whose only directory does not exist yet: the first
+			// WriteSpec creates it
+			anchor := filepath.Join(sub, "anchor")
+			must(os.MkdirAll(anchor, 0o755))
+			a, err := newAutoCache(sub, anchor, []string{anchor, filepath.Join(sub, "specs")})
+			if err != nil {
+				c.Inconclusive("no-inotify")
+				return
+			}
+			defer a.Close()
+			cache, ac = a.C, a
+			sub = filepath.Join(sub, "specs") // (does not exist yet)
+			c.Count("auto_caches_on_a_directory_the_writer_creates", 1)
+		case k < 6:
+			// a cache that started out on another directory and was reconfigured
+			elsewhere := sub + "-configured-first"
+			must(os.MkdirAll(elsewhere, 0o755))
+			defer os.RemoveAll(elsewhere)
+			cache, _ = cdi.NewCache(cdi.WithSpecDirs(elsewhere), cdi.WithAutoRefresh(false))
+			cache.Configure(cdi.WithSpecDirs(sub))
+			c.Count("caches_reconfigured_before_writing", 1)
+		default:
+			cache, _ = cdi.NewCache(cdi.WithSpecDirs(sub), cdi.WithAutoRefresh(false))
+		}
 		want := exactJSON(s)
 		loaded := map[string]string{}
 		leftovers := chance(r, 20)
@@ -305,7 +332,11 @@ func checkC09(c *Ctx) {
 				cs.Violation("altered", tags, fmt.Sprintf("%s reads back different from what was written (%s = %q)\n written %s\n read    %s", name, field, val, want, got), wit(nil))
 				continue
 			}
-			// through the cache
+			// through the cache (an auto-refresh cache first gets to see its events)
+			if ac != nil && !ac.Quiesce() {
+				c.Inconclusive("quiesce-timeout")
+				return
+			}
 			cache.Refresh()
 			d := cache.GetDevice("vendor.com/gpu=dev0")
 			if d == nil || exactJSON(d.Device) != exactJSON(s.Devices[0]) {
